@@ -238,6 +238,16 @@ func Load(repoDir, tags, goos string) (*Prog, error) {
 			}
 		}
 	}
+	// two roles in one function: a helper inlined into its only caller keeps its pinned key as a second name of the
+	// caller (the flusher start merged into lazySend)
+	for _, mr := range mergedRoles {
+		if p.Funcs[mr.Missing] == nil {
+			if host := p.Funcs[mr.Host]; host != nil && host.Obj != nil && bodyHas(host.Pkg, host.Obj, mr.Body) {
+				p.Funcs[mr.Missing] = host
+				roleNotes = append(roleNotes, mr.Missing+" is now part of "+host.Key)
+			}
+		}
+	}
 	return p, nil
 }
 
